@@ -3,6 +3,7 @@ C07 — the result does not depend on how the bytes are delivered.
 Model: FeedVerif/Model/Stream.lean.
 -/
 import FeedVerif.Model.Stream
+import FeedVerif.Model.Prefix
 
 namespace FeedVerif.Stream
 
@@ -202,3 +203,119 @@ example : (({ «prefix» := [1, 2, 3, 4, 5], file := ⟨[6, 7, 8, 9, 10, 11], [1
     = [[1, 2], [3, 4, 5, 6], [7, 8, 9], [10, 11]] := by decide
 
 end FeedVerif.Stream
+
+/-! ### the boundary search of the detection prefix (M-prefix: `convert_file_prefix_to_utf8`, encodings.py:452-520) -/
+
+namespace FeedVerif.Prefix
+
+/-- a candidate is *honest* when its answer is `conv` of exactly the bytes up to its offset, and its offset is in range -/
+def Honest (conv : Bytes → R) (content : Bytes) (start lo hi : Nat) (c : Nat × R) : Prop :=
+  c.2 = conv ((content.drop start).take (c.1 - start)) ∧ lo ≤ c.1 ∧ c.1 ≤ hi
+
+theorem pickBest_mem : ∀ (l : List (Nat × R)) (c : Nat × R), pickBest l = some c → c ∈ l := by
+  intro l
+  induction l with
+  | nil => intro c h; cases h
+  | cons a rest ih =>
+    intro c h
+    simp only [pickBest] at h
+    cases hr : pickBest rest with
+    | none => rw [hr] at h; simp only [Option.some.injEq] at h; rw [← h]; simp
+    | some b =>
+      rw [hr] at h
+      simp only at h
+      split at h
+      · injection h with h; rw [← h]; exact List.mem_cons_of_mem _ (ih b hr)
+      · injection h with h; rw [← h]; simp
+
+theorem retry_honest (conv : Bytes → R) (content : Bytes) (start lo : Nat) :
+    ∀ (left attempt pos : Nat) (cands : List (Nat × R)) (last : Option (Nat × R)) (c : Nat × R),
+      lo ≤ pos → (∀ x ∈ cands, Honest conv content start lo pos x) → (∀ x, last = some x → Honest conv content start lo pos x) →
+      retry conv content start attempt left pos cands last = some c → Honest conv content start lo (pos + left) c := by
+  intro left
+  induction left with
+  | zero =>
+    intro attempt pos cands last c hlo hc _ h
+    simp only [retry] at h
+    exact hc c (pickBest_mem cands c h)
+  | succ n ih =>
+    intro attempt pos cands last c hlo hc hl h
+    simp only [retry] at h
+    split at h
+    · -- EOF after at least one attempt: the previous answer stands
+      obtain ⟨h1, h2, h3⟩ := hl c h
+      exact ⟨h1, h2, by omega⟩
+    · have hb : pos ≤ (if pos < content.length then pos + 1 else pos) ∧ (if pos < content.length then pos + 1 else pos) ≤ pos + 1 := by
+        split <;> omega
+      generalize (if pos < content.length then pos + 1 else pos) = p' at h hb
+      split at h
+      · -- success
+        injection h with h
+        rw [← h]
+        exact ⟨rfl, by simp only; omega, by simp only; omega⟩
+      · -- bozo: go on with one more byte
+        have := ih (attempt + 1) p' (cands ++ [(p', conv ((content.drop start).take (p' - start)))])
+          (some (p', conv ((content.drop start).take (p' - start)))) c
+          (by omega)
+          (by
+            intro x hx
+            rcases List.mem_append.mp hx with hx | hx
+            · obtain ⟨a, b, d⟩ := hc x hx; exact ⟨a, b, by omega⟩
+            · simp only [List.mem_singleton] at hx; rw [hx]; exact ⟨rfl, by simp only; omega, by simp only; omega⟩)
+          (by intro x hx; injection hx with hx; rw [← hx]; exact ⟨rfl, by simp only; omega, by simp only; omega⟩)
+          h
+        obtain ⟨a, b, d⟩ := this
+        exact ⟨a, b, by omega⟩
+
+/-- **The prefix boundary search loses and duplicates nothing** (C07, `prefix_split_lossless`): for EVERY document, every start and
+read position and EVERY behaviour of `convert_to_utf8`, the answer that `convert_file_prefix_to_utf8` keeps is `convert_to_utf8` of
+exactly the bytes `content[start : offset]`, where `offset` is where the file is left (at most four bytes after the position the loop
+started from, never before it) — so prefix and rest of the stream always make up the whole document, whichever attempt wins and also
+when all four fail and the file is sought back to the best candidate. -/
+theorem prefix_split_lossless (conv : Bytes → R) (content : Bytes) (start pos : Nat) (c : Nat × R)
+    (h : boundarySearch conv content start pos = some c) :
+    c.2 = conv ((content.drop start).take (c.1 - start)) ∧ pos ≤ c.1 ∧ c.1 ≤ pos + 4 := by
+  have := retry_honest conv content start pos 4 0 pos [] none c (Nat.le_refl _) (by intro x hx; cases hx) (by intro x hx; cases hx) h
+  exact this
+
+theorem retry_some (conv : Bytes → R) (content : Bytes) (start : Nat) :
+    ∀ (left attempt pos : Nat) (cands : List (Nat × R)) (last : Option (Nat × R)), (cands ≠ [] ∧ last.isSome = true) ∨ (attempt = 0 ∧ left ≠ 0) →
+      (retry conv content start attempt left pos cands last).isSome = true := by
+  intro left
+  induction left with
+  | zero =>
+    intro attempt pos cands last h
+    rcases h with ⟨hne, _⟩ | ⟨_, h0⟩
+    · simp only [retry]
+      cases cands with
+      | nil => exact absurd rfl hne
+      | cons a rest =>
+        simp only [pickBest]
+        cases pickBest rest with
+        | none => rfl
+        | some b => simp only; split <;> rfl
+    · exact absurd rfl h0
+  | succ n ih =>
+    intro attempt pos cands last h
+    simp only [retry]
+    split
+    · rename_i hc
+      rcases h with ⟨_, hl⟩ | ⟨h0, _⟩
+      · exact hl
+      · simp [h0] at hc
+    · generalize (if pos < content.length then pos + 1 else pos) = p'
+      split
+      · rfl
+      · exact ih _ _ _ _ (Or.inl ⟨by simp, rfl⟩)
+
+/-- the search always answers (the loop body runs at least once) -/
+theorem boundarySearch_some (conv : Bytes → R) (content : Bytes) (start pos : Nat) : (boundarySearch conv content start pos).isSome = true :=
+  retry_some conv content start 4 0 pos [] none (Or.inr ⟨rfl, by decide⟩)
+
+/-- non-vacuity: a 4-byte character straddling the boundary — three bozo attempts, the fourth lands on the code-point boundary -/
+example : boundarySearch (fun b => ⟨b, b.length % 4 != 0, 10, false⟩) [1, 2, 3, 4, 5, 6, 7, 8, 9] 0 4 = some (8, ⟨[1, 2, 3, 4, 5, 6, 7, 8], false, 10, false⟩) := by decide
+
+/-- …and when no attempt succeeds the LAST candidate with the greatest key is taken and the offset is its offset -/
+example : boundarySearch (fun b => ⟨b, true, if b.length == 6 then 10 else 20, false⟩) [1, 2, 3, 4, 5, 6, 7, 8, 9] 0 4 = some (8, ⟨[1, 2, 3, 4, 5, 6, 7, 8], true, 20, false⟩) := by decide
+
+end FeedVerif.Prefix
